@@ -32,5 +32,11 @@ type Void struct{}
 
 // NewHost creates a new extension host.
 func NewHost() *Host {
-	return &Host{Events: &Events{}}
+	// The after-event brokers share a dispatcher, so that a listener sees the events of one
+	// message (stored, then deleted) in the order they were emitted.
+	d := newAsyncDispatcher()
+	events := &Events{}
+	events.AfterMessageDeleted.dispatcher = d
+	events.AfterMessageStored.dispatcher = d
+	return &Host{Events: events}
 }
